@@ -330,7 +330,7 @@ func (b *BFT) StartProposePhase() {
 			return
 		}
 	} else {
-		b.Block, b.Results = b.HighQC.Block, b.HighQC.Results
+		b.Block, b.BlockHash, b.Results = b.HighQC.Block, nil, b.HighQC.Results
 	}
 	// send PROPOSE message to the replicas
 	b.SendToReplicas(b.ValidatorSet, &Message{
@@ -397,7 +397,8 @@ func (b *BFT) StartProposeVotePhase() {
 	}
 	// Store the proposal data to enforce consistency during this voting round
 	// Note: This is not the same as a `lock`, since a `lock` would keep the data even after the round changes
-	b.Block, b.Results = msg.Qc.Block, msg.Qc.Results
+	// (the cached block hash must go with the block it was computed from: the vote below signs GetBlockHash())
+	b.Block, b.BlockHash, b.Results = msg.Qc.Block, nil, msg.Qc.Results
 	b.ByzantineEvidence = byzantineEvidence // BE stored in case of round interrupt and replicas locked on a proposal with BE
 	// start the VDF service on this block hash
 	if err := b.RunVDF(b.GetBlockHash()); err != nil {
